@@ -30,6 +30,10 @@ CHECKS = {
    "complete enumeration of 7 built-in alphabets x 256 letters, bounded-exhaustive enumeration of generated alphabet and pairing definitions, against restated definitions",
    "Complete for the built-ins (every letter value, every law of the statement) - a decision for those tables; bounded-exhaustive for constructors: every definition of length <=4 (thorough 5) over a 5-6 letter pool, every pairing over words of length <=3 (thorough 4) over {a,c,g,t}, mismatched lengths and non-ASCII runes at every position.",
    "Built-in definitions are restated in the harness; pairing definitions that give one letter two different partners are out of scope (neither accept nor reject is demanded); only pairings closed over the alphabet are used for the valid-to-valid law."),
+ "C20": (E2, "model_checking", "DESIGN.md §3 C20",
+   "bounded-exhaustive enumeration of exon layouts/CDS bounds/orientations/offsets plus breadth-first search over sequences of accepted and rejected SetExons/Add operations on real transcripts, compared with a plain model after every operation",
+   "Every set of <=3 intervals in [0,5] (thorough [0,6]) as an exon set (accepted and rejected), every CDS, every orientation combination over three nesting levels, offsets 0/3, location chains up to the documented depth 1000; every operation sequence of depth <=3 (thorough 4) over 13 accepted/rejected updates with and without spare capacity.",
+   "Small scope; chains use a harness feature type; the depth-1001 panic is documented behaviour and not required by the statement."),
 }
 PENDING = {}  # id -> reason, for properties not (yet) claimed
 
